@@ -17,6 +17,7 @@ True thread-level concurrency is out of scope: interleaving is at API-call granu
 import os, time, itertools
 from concurrent.futures import ThreadPoolExecutor
 from .. import common as C
+from . import c09_api, c09_tsan
 
 NG = 3
 NCTX = 3
@@ -739,6 +740,90 @@ def gen_broken(rng, donor):
     return dict(items=pre + bad, inc=inc, kind=kind)
 
 
+# statements whose parsing reads one token AHEAD (preget_token: `|` to see whether getline follows, `getline` to see
+# whether a variable follows, `)` of a parenthesised list to see whether `in` follows, the end of an if-branch to see
+# whether `else` follows, `>` in print, `/` as regex or division), written with blanks between the tokens
+LOOKAHEAD_STMTS = [
+    'x = 1 | "cat" ;', '"echo a" | getline v ; x = v ;', '"echo a" | getline ; x = $0 ;', 'getline v ; x = v ;',
+    'getline v < "/dev/null" ; x = v ;', 'if ( ( 1 , 2 ) in a ) x = 1 ; else x = 2 ;', 'x = ( 1 , 2 ) in a ;',
+    'if ( x ) y = 1 ; else y = 2 ;', 'if ( x ) y = 1 ;\n else y = 2 ;', 'if ( x ) { y = 1 ; } \n else { y = 2 ; }',
+    'x = 6 / 2 / 1 ;', 'x = "a" ~ /a/ ;', 'print 1 > "/dev/null" ;', 'print 1 , 2 > "/dev/null" ; x = 3 > 2 ;',
+    'printf "%d" , 1 | "cat" ;', 'while ( ( "echo" | getline v ) > 0 ) x = v ;', 'x = 1 ; ; y = x ++ + 1 ;', 'for ( k in a ) delete a [ k ] ;',
+]
+LOOKAHEAD_TRIGGERS = {"|", "getline", ")", ";", "}", "/", ">", "~", "in", ",", "print", "printf"}
+LOOKAHEAD_TAILS = ['"abc }', "/abc }", "`", "", "function", ") }", "@@", "0x", "'ab"]
+
+
+# the three places where the parser calls preget_token() (lib/parse.c: after `|`, after `getline IDENT`, after
+# `cmd | getline IDENT`), each followed by something that makes the parse fail BEFORE the pre-read token is consumed:
+# a lexer error inside the look-ahead itself, or (with `@pragma implicit off`) an undeclared variable after getline
+PENDING_HEADS = ['x = 1 |', 'x = "cmd" |', 'while ( ( "echo" |', 'x = length ( "a" |', 'x = ( 1 ) |', 'getline v9', '"cmd" | getline v9',
+                 'x = ( getline w9', 'if ( ( "c" | getline u9', 'x = 1 ; "c" | getline u9', 'while ( ( getline u9']
+PENDING_TAILS = ['"abc }', "'ab }", "`", '"abc\n }', "@@ }", '"', '"\\']
+PENDING_TAILS_NOIMPL = ["+ 1 ; }", "; }", ") }", '"s" ; }', "( 1 ) ; }", "[ 1 ] ; }"]
+
+
+def lookahead_variants():
+    """(hot, text, implicit_off).  hot: the parse stops while a pre-read token is pending; the others are every failing
+    prefix of every look-ahead statement"""
+    out = []
+    for wrap in ("BEGIN { %s", "function lk(a0) { %s", "{ %s", "BEGIN { y = 0 ; { %s"):
+        for h in PENDING_HEADS:
+            for t in PENDING_TAILS:
+                out.append((True, wrap % (h + " " + t), False))
+            if "getline" in h:
+                for t in PENDING_TAILS_NOIMPL:
+                    out.append((True, wrap % (h + " " + t), True))
+    for st in LOOKAHEAD_STMTS:
+        toks = st.split(" ")
+        for k in range(1, len(toks) + 1):
+            for tail in LOOKAHEAD_TAILS:
+                for wrap in ("BEGIN { %s", "function lk(a0) { %s", "{ %s"):
+                    out.append((False, wrap % (" ".join(toks[:k]).replace("\\n", "\n") + " " + tail), False))
+    return out
+
+
+def gen_lookahead_broken(rng, hot=True):
+    """a source that fails to parse WHILE a look-ahead token is pending (or right at it): the parser state that a
+    reset has to forget includes the token buffers (tok, ntok, ptok)"""
+    vs = [v for v in lookahead_variants() if v[0] == hot]
+    _, text, noimpl = rng.choice(vs)
+    pre = []
+    if rng.random() < 0.3:
+        pre = ["@global %s;" % ", ".join(rng.sample(IDENT_POOL, 2))]
+    if noimpl or rng.random() < 0.15:
+        pre = ["@pragma implicit off;"] + pre
+    return dict(items=pre + [text], inc=None, kind="lookahead")
+
+
+def gen_reparse_lookahead(rng, hot=True):
+    """parse that fails at a look-ahead position -> (optional hawk_clear) -> a good program, against a fresh interpreter"""
+    c = gen_reparse(rng)
+    steps = [["broken", gen_lookahead_broken(rng, hot), 1]]
+    if rng.random() < 0.5: steps.append(["clear"])
+    if rng.random() < 0.3: steps.insert(0, ["clear"])
+    if rng.random() < 0.3: steps.append(["broken", gen_lookahead_broken(rng, hot), 1])
+    return c.clone(how=steps)
+
+
+def drop_lookahead_steps_that_parse(env, cases):
+    """the look-ahead family is generated from prefixes; a few of them are complete programs.  Ask the real parser
+    (fresh interpreter each time) and turn a step whose source parses into a plain hawk_clear"""
+    steps = [st for c in cases if c.kind == "reparse" and not isinstance(c.how, str) for st in (c.how or []) if st[0] == "broken" and st[1].get("kind") == "lookahead"]
+    if not steps:
+        return 0
+    lines = []
+    for st in steps:
+        lines += ["new"] + reset_lines(env, [st])
+    status, out, err = run_c(env, lines + ["fin"])
+    n = 0
+    for i, st in enumerate(steps):
+        o = out[2 * i + 1][0] if 2 * i + 1 < len(out) else ""
+        if not o.startswith("parse err"):
+            st[:] = ["clear"]; n += 1
+    return n
+
+
 def norm_err(line):
     if " err=" not in line or " ret=NULL " in line:
         return line
@@ -1041,6 +1126,26 @@ THEOREMS_NOTE = ("the theorems of Props/C09 (noninterference, usable_after_faile
                  "clear_then_parse_eq_fresh, ...) are about HawkModel/Ctx.lean")
 
 
+def clear_fields_table(ctx):
+    """extract/c09_clear_fields.py: every token buffer and every parser-written field of hawk_t must be reset by
+    hawk_clear() (re-derived from the working tree; fails closed)"""
+    import json, subprocess, sys
+    pr = subprocess.run([sys.executable, os.path.join(C.VERIF, "extract", "c09_clear_fields.py")], stdout=subprocess.PIPE, stderr=subprocess.PIPE,
+                        env=dict(os.environ, HAWK_REPO=C.REPO), timeout=120)
+    try:
+        tab = json.loads(pr.stdout.decode() or "{}")
+    except ValueError:
+        tab = dict(shape="no JSON: " + pr.stderr.decode(errors="replace")[-400:])
+    if pr.returncode == 1:
+        ctx.problem("corr", "hawk_clear() does not reset parser state that lib/parse.c writes, so a reset interpreter need not behave like a fresh one (clear_then_parse_eq_fresh is about a hawk_clear that forgets everything): " +
+                    "; ".join(tab.get("problems", []))[:700],
+                    "extract/c09_clear_fields.py on %s:\n%s" % (C.REPO, json.dumps(tab, indent=1, sort_keys=True)), found_input=False)
+    elif pr.returncode != 0:
+        ctx.problem("corr", "the translator extract/c09_clear_fields.py no longer understands lib/hawk.c / lib/hawk-prv.h / lib/parse.c: %s" % tab.get("shape"),
+                    pr.stdout.decode(errors="replace")[-2000:] + pr.stderr.decode(errors="replace")[-2000:], found_input=False)
+    return tab
+
+
 def run(ctx):
     proof = C.prove(ctx, "HawkModel.Props.C09", leanchecker=(ctx.tier == "thorough"))
     libdir = C.build_libhawk(ctx)
@@ -1049,6 +1154,10 @@ def run(ctx):
     env = Env(ctx, exe)
     rng = ctx.rng
     quick = ctx.tier == "quick"
+    clear_tab = clear_fields_table(ctx)
+    # round 5: the thread-level oracle (clang ThreadSanitizer build of libhawk, one hawk_t per thread) runs beside the campaign
+    bg = ThreadPoolExecutor(max_workers=1)
+    fut_tsan = bg.submit(c09_tsan.run_tsan, ctx, 4, 10 if quick else 60, [1, 2] if quick else list(range(1, 9)))
     cases = load_corpus()
     ncorpus = len(cases)
     cases += exhaustive_cases(full=not quick)
@@ -1057,8 +1166,11 @@ def run(ctx):
         cases.append(Case("inter", p, gen_history(rng, p, rng.randrange(6, 45), nctx=rng.choice([2, 3, 3])), np=rng.choice([1, 1, 2, 3]), im=rng.choice(IMODES)))
     for _ in range(60 if quick else 600):
         cases.append(gen_reparse(rng))
+    for i in range(45 if quick else 900):
+        cases.append(gen_reparse_lookahead(rng, hot=(i % 5 != 4)))
     for _ in range(90 if quick else 1500):
         cases.append(gen_ext(rng))
+    lookahead_dropped = drop_lookahead_steps_that_parse(env, cases)
     results = check_cases(env, cases, model=True)
     evaluations = sum(len(r["runs"][0]) for r in results)
     dist, outcomes = {}, {}
@@ -1107,19 +1219,42 @@ def run(ctx):
             ctx.problem("corr", "correspondence broken: the implementation still satisfies the property oracle on all %d cases, but it and the model differ: %s (%s)" % (
                 len(cases), rr["corr"], THEOREMS_NOTE), replay_text(env, small, rr, "model/implementation difference: " + str(rr["corr"])), found_input=False)
             break
+    # round 5: the object level of the API over several hawk_t (own model, harness, oracle: vlib/props/c09_api.py)
+    api = c09_api.run_api(ctx, libdir)
+    evaluations += api["evaluations"]
+    tsan = fut_tsan.result()
+    bg.shutdown()
+    if tsan["status"] == "race":
+        for rep in tsan["reports"][:3]:
+            sig = c09_tsan.SIG_ENVIRON if "build_environ" in rep["text"] else None
+            ctx.problem("impl", "data race inside libhawk between threads that share no hawk object (each thread has its own hawk_t): " + rep["summary"],
+                        "# harness/ctx_tsan.c built with clang -fsanitize=thread against a ThreadSanitizer build of libhawk\n# run: %s\n%s" % (tsan["detail"], rep["text"]),
+                        found_input=True, sig=sig)
+    elif tsan["status"] in ("mismatch", "crash"):
+        ctx.problem("impl", "threads that each own their hawk_t disturb each other: " + tsan["detail"][:600],
+                    "# harness/ctx_tsan.c under ThreadSanitizer\n" + tsan["detail"], found_input=True)
+    elif tsan["status"] == "build-failed":
+        ctx.problem("corr", "the ThreadSanitizer build of libhawk / harness/ctx_tsan.c does not build: " + tsan["detail"][:400], tsan["detail"], found_input=False)
     nontriv = len({(prog_awk(c.p), tuple(c.ops)) for c, r in zip(cases, results) if c.kind == "inter" and nontrivial(c, r["results"])})
+    nontriv += api["nontrivial"]
     samples = [" ; ".join(c.ops[:9]) for c in cases[ncorpus + 5:ncorpus + 6] + cases[-40:-38] + cases[-2:-1]]
     return C.finish(ctx, [proof], evaluations, nontriv,
                     ("cases = corpus + every length-3 sequence over a %d-op alphabet on two contexts of a fixed program + seeded random programs (23 library functions: global-derived value, global setter, run-time failure, exit direct and nested, by-reference parameters, map mutation, console+file output, close, getline, recursion to ESTACK, undefined callee, too many arguments, script-level calls that copy by-reference parameters back to globals/locals/parameters/$0 incl. a copy-back rejected after the callee returned; plus 1-4 random functions, random BEGIN/END) with random interleavings of open/call/loop/exec/setgbl/getgbl/halt/mkstr/mkmap/drop/show/close over 2-3 contexts + reset/re-parse sequences with different programs whose sources come in 1-5 pieces of differing counts and, in between, any mix of hawk_clear, a missing source and sources that FAIL to parse at chosen positions (inside @global / @local lists after names were accepted, inside function headers, after an @include that declared names, in a body, in a string) introducing the identifiers later programs use as globals, locals, parameters, functions and plain variables; "
                     "+ programs beyond the abstract language (text functions whose argument lists contain nested calls to failing / exiting / succeeding library, earlier text and intrinsic functions, in functions and in BEGIN/END) judged by the property oracle only; the harness picks, from the content of each op line, one of the equivalent API entry points (hawk_rtx_callwithbcstr/ucstr, findfunwith*+callfun, the four callwith*strarr, execwithbcstrarr/ucstrarr, setgbl by id or setgbltostrbyname, openstdwithbcstr/ucstr, hawk_parsestd with path or text pieces in byte or wide form) and registers runtime callback sets whose close calls are counted; " +
                     "each interleaving is run on the real code interleaved AND as per-context projections on fresh interpreters (observations incl. reference counts, exit level, stack height, rio chain, NR, console, files, live blocks per context must be identical), and the interleaved run is compared line by line with the Lean driver; "
-                    "distinct_nontrivial = distinct interleavings where at least two contexts ran a function body and a call failed at run time or exited with a later call on the same context") % (12 if quick else 17),
+                    "distinct_nontrivial = distinct interleavings where at least two contexts ran a function body and a call failed at run time or exited with a later call on the same context"
+                    "; PLUS (round 5) histories of API calls over 2-3 hawk_t with up to 3 runtimes each (open/close/clear/parse of 5 programs, callback chains, addgbl/delgbl/addfnc/delfnc, error numbers, haltall, options, extension areas, runtime open/close/call/loop/halt, make/refup/refdown/refdown_nofree through handles, setgbl/getgbl, getvaloocstr/freevaloocstr, valtostr CPL/CPLCPY/CPLDUP), each run interleaved and as per-hawk projections with one counting memory manager per hawk_t and compared with HawkModel/CtxApi.lean; counted when two hawk_t made calls and a halt was involved"
+                    "; PLUS a ThreadSanitizer run of 4 threads with one hawk_t each") % (12 if quick else 17),
                     samples, extra_cov=dict(op_distribution=dist, call_outcomes=outcomes, cases=len(cases), impl_status=status,
-                                            reparse_cases=sum(1 for c in cases if c.kind == "reparse")),
-                    trusted=["run.c/hawk.c API paths modelled by hand in HawkModel/Ctx.lean over an abstract action language (expressions: literals, variables, $0, NR, concatenation, length); pattern-action blocks, pipes, getline from files, modules and the garbage collector are not modelled",
+                                            reparse_cases=sum(1 for c in cases if c.kind == "reparse"),
+                                            clear_fields=dict(tokens=clear_tab.get("tokens"), parser_fields=clear_tab.get("parser_parse_fields"), kept=sorted((clear_tab.get("kept") or {}).keys())),
+                                            lookahead_steps_that_parsed=lookahead_dropped,
+                                            api_cases=api["cases"], api_op_distribution=api["op_distribution"], api_status=api["status"], api_lines=api["evaluations"],
+                                            tsan=dict(status=tsan["status"], runs=tsan["runs"], calls=tsan["calls"], wall=round(tsan["wall"], 1), races=[r["summary"] for r in tsan["reports"]])),
+                    trusted=["the API-ownership model HawkModel/CtxApi.lean describes programs by what five fixed texts do to one global; reference counts inside calls are the business of HawkModel/Ctx.lean", "run.c/hawk.c API paths modelled by hand in HawkModel/Ctx.lean over an abstract action language (expressions: literals, variables, $0, NR, concatenation, length); pattern-action blocks, pipes, getline from files, modules and the garbage collector are not modelled",
                              "nested calls inside argument lists (the oops_making_stack_frame unwinding of hawk_rtx_evalcall), @pragma entry/stack_limit and hawk_haltall are not in the Lean model: they are covered by the oracle-only program family and the re-parse comparisons", "rendering of abstract programs to awk text (vlib/props/c09.py) and the hidden globals DIR/ZZ; plain (undeclared) variables are kept in global slots by the model, and for programs that use them the sticky error number is compared only on failing operations (a miss in the named-variable table leaves HAWK_ENOENT behind)",
                              "model clears dead stack slots and ignores variable references outside the frame (unobservable; the parser never produces them)"],
-                    assumptions=["interleaving at API-call granularity from one thread; true thread-level concurrency (data races on call->u.fun.fun, hawk->haltall) is out of scope",
+                    assumptions=["the models interleave at API-call granularity from one thread; thread-level concurrency is covered only by the ThreadSanitizer oracle (threads that share no hawk object); sharing one hawk_t between threads (races on call->u.fun.fun, hawk->haltall) stays out of scope",
                                  "the application follows the API contract: one refdown per returned value, values used only with the context that made them, contexts closed before hawk_clear/hawk_parse",
                                  "hawk_openstd defaults (FLEXMAP on, implicit variables on), rtx stack limit 512, allocation never fails"])
 
